@@ -61,25 +61,38 @@ def main():
     for f in ("patch.diff", "demo.py", "notes.md"):
         if os.path.exists(os.path.join(seeddir, f)):
             shutil.copy(os.path.join(seeddir, f), os.path.join(dest, f))
-    # run the checks against the patched /repo
-    st = sh(["git", "-C", "/repo", "status", "--porcelain", "--untracked-files=no"])
+    # run the checks against the patched /repo (or, with --scratch, against a patched scratch worktree of /repo HEAD,
+    # with evidence and replay files sent elsewhere - several seeds can then be tested at the same time)
+    scratch = "--scratch" in sys.argv
+    target = "/repo"
+    env = dict(os.environ)
+    if scratch:
+        target = "/tmp/seedscratch_%s_%d" % (name, os.getpid())
+        sh(["git", "-C", "/repo", "worktree", "add", "-q", "--detach", target, "HEAD"])
+        env["VERIF_REPO"] = target
+        env["VERIF_OUT"] = os.path.join(VERIF, ".work", "seedscratch_" + name)
+    st = sh(["git", "-C", target, "status", "--porcelain", "--untracked-files=no"])
     if st.stdout.strip():
-        print("/repo has uncommitted changes; refusing to apply the seed there")
+        print("%s has uncommitted changes; refusing to apply the seed there" % target)
         return 2
     results = {}
     try:
-        ap = sh(["git", "-C", "/repo", "apply", patch])
+        ap = sh(["git", "-C", target, "apply", patch])
         assert ap.returncode == 0, ap.stderr
         for c in checks:
             t0 = time.time()
-            r = sh([os.path.join(VERIF, "check"), c, "--tier", tier], cwd=VERIF, timeout=7200)
+            r = sh([os.path.join(VERIF, "check"), c, "--tier", tier], cwd=VERIF, timeout=7200, env=env)
             vio = [l for l in r.stdout.splitlines() if l.startswith("VIOLATION")]
             keys = sorted({l.split("key=")[1].split()[0] for l in r.stdout.splitlines() if l.strip().startswith("key=")})
             results[c] = {"exit": r.returncode, "violation_lines": len(vio), "keys": keys[:8], "wall_s": round(time.time() - t0, 1),
                           "summary": r.stdout.strip().splitlines()[-1] if r.stdout.strip() else ""}
             print(c, "exit", r.returncode, "violations", len(vio), keys[:4])
     finally:
-        sh(["git", "-C", "/repo", "checkout", "--", "."])
+        if scratch:
+            sh(["git", "-C", "/repo", "worktree", "remove", "--force", target])
+            shutil.rmtree(env["VERIF_OUT"], ignore_errors=True)
+        else:
+            sh(["git", "-C", "/repo", "checkout", "--", "."])
     meta["checks_run"] = results
     meta["caught_by"] = sorted(c for c, v in results.items() if v["exit"] == 1)
     meta["tier"] = tier
